@@ -137,6 +137,15 @@ def compare_to(ref_snap, obj, names, rec, what):
 def check_measurement(res, rec, rng):
     f = np.asarray(res.f)
     names = ["Gxx", "ENBW"] + (["Gxy", "Hxy", "coh", "cf"] if res.iscsd else ["asd", "psd"])
+    # plus a random handful of ALL per-bin numeric attributes (real and complex)
+    pool = []
+    for nm in data_names(res):
+        v = getattr(res, nm)
+        if isinstance(v, np.ndarray) and v.shape == f.shape and v.dtype.kind in "fc" \
+                and np.all(np.isfinite(v)) and nm not in names and nm != "f":
+            pool.append(nm)
+    if pool:
+        names = names + [str(n) for n in rng.choice(pool, size=min(5, len(pool)), replace=False)]
     for which in names:
         tab = np.asarray(getattr(res, which))
         rec.count("measurement_queries")
@@ -162,6 +171,11 @@ def check_measurement(res, rec, rng):
                 rec.violation("measurement-interpolation",
                               f"get_measurement between grid points is not linear in re/im for "
                               f"'{which}' (max dev {np.max(np.abs(got - exp) / scale):.3e})")
+        # list input, exact end points
+        ends = np.asarray(res.get_measurement([float(f[0]), float(f[-1])], which))
+        if ends.shape != (2,) or abs(ends[0] - tab[0]) > 1e-12 * abs(tab[0]) \
+                or abs(ends[1] - tab[-1]) > 1e-12 * abs(tab[-1]):
+            rec.violation("measurement-grid", f"get_measurement([f0, f_last], '{which}') != end values")
         # outside: clamped
         lo = res.get_measurement(float(f[0]) * 0.5 - 1.0, which)
         hi = res.get_measurement(float(f[-1]) * 2 + 1.0, which)
